@@ -254,3 +254,31 @@ Theorem extra_state_not_recovered :
   let r := run_events g ex_rw [0; 1]%Z in
   r_ok g r = true /\ obs g (recovered g (r_hist g r)) <> obs g (r_st g r).
 Proof. vm_compute. split; [reflexivity | discriminate]. Qed.
+
+(* ---------------------------------------------------------------------------------------------- *)
+(* the shipped algorithms by name *)
+Definition regularized_evolution (draws : list Z) (population_size : nat) (children : list (list Z)) : alg :=
+  AEvo (ARand draws) (Some population_size) (ULast population_size) children.
+Definition hill_climb (draws : list Z) (init_population_size : nat) (children : list (list Z)) : alg :=
+  AEvo (ARand draws) (Some init_population_size) (UTop 1) children.
+Definition neat (draws : list Z) (population_size : nat) (children : list (list Z)) : alg :=
+  AEvo (ARand draws) (Some population_size) UTopGen children.
+
+Definition shipped (a : alg) : Prop :=
+  a = ASweep \/ (exists t, a = ARand t) \/
+  (exists t n c, a = regularized_evolution t n c) \/ (exists t n c, a = hill_climb t n c) \/ (exists t n c, a = neat t n c).
+
+Theorem shipped_recover : forall m a rw evs, shipped a ->
+  (let g := denote m a in let r := run_events g rw evs in
+   r_ok g r = true -> pview (obs g (recovered g (r_hist g r))) = pview (obs g (r_st g r))) /\
+  (forall hm auto maxdup maxatt,
+   let g := denote m (ADedup a hm auto maxdup maxatt) in let r := run_events g rw evs in
+   r_ok g r = true -> pview (obs g (recovered g (r_hist g r))) = pview (obs g (r_st g r))).
+Proof.
+  intros m a rw evs H.
+  assert (is_dedup a = false) as Hd.
+  { destruct H as [-> | [(t & ->) | [(t & n & c & ->) | [(t & n & c & ->) | (t & n & c & ->)]]]]; reflexivity. }
+  split.
+  - apply recover_observable. destruct a; try reflexivity; discriminate.
+  - intros. apply recover_observable. simpl. rewrite Hd. reflexivity.
+Qed.
